@@ -579,6 +579,7 @@ func (in *Interp) runFrame(fr *frame) {
 			return // normal return
 		}
 		r := recover()
+		debugUnwind(fr, r)
 		switch r.(type) {
 		case pathEnd, pathAbort, unsupported:
 			panic(r)
